@@ -250,6 +250,15 @@ func stringTokens(root ast.Vertex) map[*token.Token]bool {
 	return in
 }
 
+func lastPositioned(toks []*token.Token) int {
+	for i := len(toks) - 1; i >= 0; i-- {
+		if toks[i].Position != nil {
+			return i
+		}
+	}
+	return -1
+}
+
 var brackets = map[byte]int{'(': 0, ')': 0, '[': 1, ']': 1, '{': 2, '}': 2}
 
 // TestGuaranteedInvalidEdits: a valid generated program plus one edit that no
@@ -284,7 +293,7 @@ func TestGuaranteedInvalidEdits(t *testing.T) {
 		if len(sites) == 0 {
 			return
 		}
-		kind := rapid.SampledFrom([]string{"E1-insert-bracket", "E2-delete-bracket", "E3-truncate-open", "E4-control-byte"}).Draw(rt, "edit")
+		kind := rapid.SampledFrom([]string{"E1-insert-bracket", "E2-delete-bracket", "E3-truncate-open", "E4-control-byte", "E4-control-byte-at-end"}).Draw(rt, "edit")
 		var edited []byte
 		desc := ""
 		switch kind {
@@ -332,6 +341,16 @@ func TestGuaranteedInvalidEdits(t *testing.T) {
 			at := cuts[rapid.IntRange(0, len(cuts)-1).Draw(rt, "cut")]
 			edited = append([]byte{}, src[:at]...)
 			desc = fmt.Sprintf("truncated at offset %d inside an open bracket", at)
+		case "E4-control-byte-at-end":
+			// only when the file ends in PHP mode (not after a close tag / inline HTML / __halt_compiler data)
+			last := toks[sites[len(sites)-1]]
+			if sites[len(sites)-1] != lastPositioned(toks) || bytes.Contains(last.Value, []byte("?>")) {
+				return
+			}
+			cb := rapid.SampledFrom([]byte{1, 2, 0x1a, 0x1b, 0x7f, 0}).Draw(rt, "byte")
+			sep := rapid.SampledFrom([]string{"", " ", "\n"}).Draw(rt, "sep")
+			edited = append(append(append([]byte{}, bytes.TrimRight(src, " \t\r\n")...), sep...), cb)
+			desc = fmt.Sprintf("appended control byte 0x%02x as the last byte", cb)
 		case "E4-control-byte":
 			i := sites[rapid.IntRange(0, len(sites)-1).Draw(rt, "site")]
 			cb := rapid.SampledFrom([]byte{1, 2, 3, 4, 5, 6, 7, 8, 0x0e, 0x0f, 0x10, 0x1b, 0x1f, 0x7f}).Draw(rt, "byte")
